@@ -15,8 +15,8 @@ Proof. reflexivity. Qed.
 Section SimS.
 Variable c : p_cfg.
 Variable d : nat.
-Hypothesis G1 : forall x a, In a (pc_rs (p_get c x) ++ pc_ws (p_get c x) ++ pc_cs (p_get c x)) -> p_act_target a = x.
-Hypothesis G2 : forall x, pc_doc (p_get c x) = false.
+Hypothesis G1 : forall x a, x <> d -> In a (pc_rs (p_get c x) ++ pc_ws (p_get c x) ++ pc_cs (p_get c x)) -> p_act_target a <> d.
+Hypothesis G2d : pc_doc (p_get c d) = false.
 Local Notation conn := (pc_conn (p_get c d)).
 Local Notation sock := (p_is_sock c d).
 
@@ -81,7 +81,7 @@ Proof.
     assert (Nd' : (d =? x) = false) by (apply Nat.eqb_neq; auto).
     assert (T : forall l, (forall y, In y l -> In y (pc_rs (p_get c x) ++ pc_ws (p_get c x) ++ pc_cs (p_get c x))) ->
                           forall y, In y l -> p_act_target y <> d).
-    { intros l H y Hy. rewrite (G1 x y (H y Hy)). exact N. }
+    { intros l H y Hy. apply (G1 x y N (H y Hy)). }
     destruct k.
     + apply p_rs_exec_acts_other. apply T. intros; apply in_or_app; auto.
       destruct R; constructor; simpl; auto.
@@ -136,7 +136,7 @@ Proof.
     destruct conn eqn:CN.
     + destruct (s_c (st_sel s) d) eqn:SC; simpl; fin CN SC;
         try (destruct rs_c0 as [X|X]; [left; exact X|right; congruence]);
-        try (right; reflexivity); try (intros; apply G2).
+        try (right; reflexivity); try (intros; apply G2d).
     + destruct (s_r (st_sel s) d) eqn:SR; simpl; fin CN SR.
   - (* AddW *)
     unfold p_add_w. simpl. rewrite rs_be0. unfold p_sel_add_w, p_sel_insert.
@@ -153,11 +153,12 @@ Proof.
     destruct conn eqn:CN; destruct (s_w (st_sel s) d) eqn:SW; simpl; fin CN SW; try congruence.
 Qed.
 
-Lemma p_rs_acts_self l : (forall x, In x l -> p_act_target x = d) ->
-  forall s a, p_rs s a -> p_rs (p_exec_acts c s l) (l_acts a l).
+Lemma p_rs_acts_mixed l : forall s a, p_rs s a -> p_rs (p_exec_acts c s l) (l_acts a (l_own d l)).
 Proof.
-  unfold p_exec_acts, l_acts. induction l as [|y l IH]; simpl; intros N s a R; auto.
-  apply IH. intros; apply N; auto. apply p_rs_act_self; auto.
+  unfold p_exec_acts, l_acts, l_own. induction l as [|y l IH]; simpl; intros s a R; auto.
+  unfold p_act_self at 1. destruct (p_act_target y =? d) eqn:E.
+  - apply Nat.eqb_eq in E. simpl. apply IH. apply p_rs_act_self; auto.
+  - apply Nat.eqb_neq in E. apply IH. apply p_rs_exec_act_other; auto.
 Qed.
 
 Lemma p_rs_ext s a a' :
@@ -168,27 +169,20 @@ Proof.
   constructor; unfold p_dormant, l_has_data; rewrite ?E1, ?E2, ?E3, ?E4, ?E5, ?E6, ?E7, ?E8; auto.
 Qed.
 
-Lemma p_scripts_self x : (forall y, In y (pc_rs (p_get c x)) -> p_act_target y = x) /\
-  (forall y, In y (pc_ws (p_get c x)) -> p_act_target y = x) /\
-  (forall y, In y (pc_cs (p_get c x)) -> p_act_target y = x).
-Proof.
-  repeat split; intros y H; apply G1; apply in_or_app; auto; right; apply in_or_app; auto.
-Qed.
-
 Lemma p_rs_invoke_self s a k n : st_opix s = n -> p_rs s a -> p_rs (p_invoke c s d k) (l_invoke c d n a k).
 Proof.
-  intros O R. unfold p_invoke. rewrite (rs_del _ _ R). destruct (p_scripts_self d) as (S1 & S2 & S3).
+  intros O R. unfold p_invoke. rewrite (rs_del _ _ R).
   unfold l_invoke. destruct k.
-  - apply p_rs_acts_self; auto. destruct R. unfold p_dormant, l_has_data in *.
+  - apply p_rs_acts_mixed. destruct R. unfold p_dormant, l_has_data in *.
     constructor; simpl; unfold p_dormant, l_has_data; simpl; rewrite ?p_upd_same, ?Nat.eqb_refl; auto;
       try congruence.
     destruct conn; auto. destruct rs_c0 as [X|X]; [left|right; auto].
       destruct (a_pend a); [|rewrite !andb_false_r in X; simpl in X; rewrite ?andb_false_r in X; discriminate].
       rewrite skipn_nil. exact X.
-  - apply p_rs_acts_self; auto. destruct R. unfold p_dormant, l_has_data in *.
+  - apply p_rs_acts_mixed. destruct R. unfold p_dormant, l_has_data in *.
     constructor; simpl; unfold p_dormant, l_has_data; simpl; rewrite ?Nat.eqb_refl; auto.
     rewrite O, rs_regw0, <- rs_log0. reflexivity.
-  - apply p_rs_acts_self; auto. destruct R. unfold p_dormant, l_has_data in *.
+  - apply p_rs_acts_mixed. destruct R. unfold p_dormant, l_has_data in *.
     constructor; simpl; unfold p_dormant, l_has_data; simpl; rewrite ?Nat.eqb_refl; auto.
     rewrite O, rs_pend0, rs_regr0, <- rs_log0. reflexivity.
 Qed.
